@@ -389,6 +389,7 @@ fn case_tx(r: &mut Rng, targets: &[&'static str]) -> String {
 }
 
 fn main() {
+    img::keep_heap();
     let a = parse_args();
     quiet_panics();
     let targets = encoder_syntaxes();
@@ -400,7 +401,7 @@ fn main() {
         return;
     }
     // the large-size probes are few: about one case in `big_every`
-    let big_every = if a.thorough { 2000 } else { 700 };
+    let big_every = if a.thorough { 5000 } else { 2000 };
     for i in case_indices(&a) {
         let mut r = Rng::for_case(a.seed, i);
         let line = if i % big_every == 3 {
